@@ -198,7 +198,7 @@ PROPS = {
         "total": True,
         "min_nontrivial": {"quick": 5000, "thorough": 50000},
         "must_observe": ["exhaustive_dense_alphabet", "accepted_by_all", "rejected_inputs_with_backref_token"],
-        "rule": "EXHAUSTIVE strings over the dense token alphabet up to length 6 (quick) / 7 (thorough); valid back-reference serialisations whose paths are rewritten (into the stack itself, into materialised stack lists, into atoms, past the end, leading zero bytes, "
+        "rule": "EXHAUSTIVE strings over the dense token alphabet up to length 6 (the release layer of the thorough tier adds a seed-chosen eighth of the 36M strings of length 7); valid back-reference serialisations whose paths are rewritten (into the stack itself, into materialised stack lists, into atoms, past the end, leading zero bytes, "
                 "empty path), inserted fresh back-references, byte-level mutations. Per input: node_from_bytes_backrefs and node_from_bytes_backrefs_old must both accept or reject, give identical trees and identical pair_count; serialized_length_from_bytes must accept "
                 "exactly those inputs and its value L must be the consumed length (prefix of length L decodes to the same tree, prefix L-1 does not decode). dbg build catches ghost-pair debug_asserts, ASan/Miri memory errors. Non-trivial: accepted input containing a 0xfe token.",
         "assumptions": COMMON_ASSUMPTIONS,
@@ -280,7 +280,7 @@ PROPS = {
         "exhaustive_key": "exhaustive_encodings",
         "min_nontrivial": {"quick": 100000, "thorough": 1000000},
         "must_observe": ["exhaustive_encodings", "exhaustive_values", "width_boundary_values", "truncated_inputs", "overlong_encodings_checked", "varint_short_read_comparisons"],
-        "rule": "EXHAUSTIVE over every encoding whose prefix declares <=3 bytes (quick, 2.1M) / <=4 bytes (thorough, 270M), strict and lenient, with a trailing byte that must not be consumed; encoder exhaustive for |v| < 2^20 (quick) / 2^27 (thorough), every "
+        "rule": "EXHAUSTIVE over every encoding whose prefix declares <=3 bytes (2.1M; the thorough tier adds a seed-chosen sixteenth of the 268M four-byte encodings), strict and lenient, with a trailing byte that must not be consumed; encoder exhaustive for |v| < 2^20 (quick) / 2^23 (thorough), every "
                 "width boundary +-2^(7k-1)+-{0,1,2}, random 56-bit values; for each value every longer encoding (lenient must return the value, strict must reject) and every truncation (must fail); 0xff and empty input; every enumerated encoding is also decoded through a reader that returns one byte per call (same value, verdict and consumed length). Oracle: independent varint model "
                 "(minimal length by range, two's-complement payload). distinct_nontrivial counts the enumerated encodings (distinct by construction) plus random cases.",
         "assumptions": COMMON_ASSUMPTIONS,
